@@ -81,7 +81,8 @@ def clip_expectation(start: float, end: float, sr: int):
     """Expected (offset, count) of a clip, each None when the floor is ambiguous in doubles.
 
     Returns dict(off, cnt, off_mode, cnt_mode, off_near, cnt_near); *_near is the integer used for
-    classifying the input region only (the floor, or the nearest integer when ambiguous).
+    classifying the input region only (the floor, or, when ambiguous, the floor of the straightforward
+    double evaluation).
     """
     S, E = Fraction(start), Fraction(end)
     xs = S * sr
@@ -94,8 +95,8 @@ def clip_expectation(start: float, end: float, sr: int):
     cnt, cnt_mode = judge_floor(xd, Fraction(dur) == D and Fraction(pd) == xd)
     return {
         "off": off, "cnt": cnt, "off_mode": off_mode, "cnt_mode": cnt_mode,
-        "off_near": off if off is not None else int(round(xs)),
-        "cnt_near": cnt if cnt is not None else int(round(xd)),
+        "off_near": off if off is not None else math.floor(ps),
+        "cnt_near": cnt if cnt is not None else math.floor(pd),
     }
 
 
@@ -103,10 +104,10 @@ def region(off: int, cnt: int, nframes: int) -> str:
     """Input class of a clip relative to the file."""
     if off > nframes:
         return "starts_past_eof"
-    if off == nframes:
-        return "starts_at_eof"
     if cnt == 0:
         return "zero_samples"
+    if off == nframes:
+        return "starts_at_eof"
     if off + cnt > nframes:
         return "reaches_past_eof"
     return "inside"
